@@ -1903,6 +1903,12 @@ fn widen_fields(fields: &mut Fields, feats: &[String]) -> std::result::Result<()
                 if attrs_enabled(&f.attrs, feats)? {
                     f.attrs.clear();
                     f.vis = pubv.clone();
+                    // A5: a field whose type mentions a trait object (`Arc<dyn Fn(..) + Send + Sync>`, `Box<dyn T>`): Verus rejects the
+                    // type; the field becomes the opaque `VxDyn` (prelude/dyn_opaque.vrs).  Code that only carries the struct
+                    // around is unaffected; code that touches the field no longer type-checks (UNDECIDED) and must be outlined.
+                    if f.ty.to_token_stream().to_string().contains("dyn ") {
+                        f.ty = parse_quote!(VxDyn);
+                    }
                     keep.push(f);
                 }
             }
